@@ -98,7 +98,19 @@ func runReplay(t *testing.T, c *Collector, path string) {
 			sc.Recover = recoverC09
 		}
 		if prop == "C10" {
-			sc.Recover = recoverC10
+			// the scenario carries the legacy store it starts from
+			sc = nil
+			for _, tier := range []string{"quick", "thorough"} {
+				for _, x := range c10CrashScenarios(tier) {
+					if x.Name == spec.Scenario && x.Cfg == spec.Config {
+						sc = x
+					}
+				}
+			}
+			if sc == nil {
+				c.res.InfraError = "no scenario for replay"
+				return
+			}
 		}
 		sc.only = &spec
 		sc.crashHistory(spec.Ops, c, map[[40]byte]struct{}{})
